@@ -138,8 +138,8 @@ def flow(spec: dict[str, Any], X, Y, t: float):
     if kind == "const":
         return np.full_like(X + Y, spec["u"]), np.full_like(X + Y, spec["v"])
     if kind == "linear":  # exactly representable by bilinear + linear-in-time interpolation
-        u = spec["u0"] + spec.get("ux", 0) * X + spec.get("uy", 0) * Y + spec.get("ut", 0) * t
-        v = spec["v0"] + spec.get("vx", 0) * X + spec.get("vy", 0) * Y + spec.get("vt", 0) * t
+        u = spec["u0"] + spec.get("ux", 0) * X + spec.get("uy", 0) * Y + (spec.get("ut", 0) + spec.get("uxt", 0) * X + spec.get("uyt", 0) * Y) * t
+        v = spec["v0"] + spec.get("vx", 0) * X + spec.get("vy", 0) * Y + (spec.get("vt", 0) + spec.get("vxt", 0) * X + spec.get("vyt", 0) * Y) * t
         return u + 0 * Y, v + 0 * X
     mod = 1.0 + spec.get("tmod", 0.0) * np.sin(spec.get("tfreq", 0.0) * t)
     if kind == "rotation":
